@@ -27,7 +27,7 @@ from WallGo.grid3Scales import Grid3Scales
 
 from symx import axioms, core, npx
 from symx.core import AND, OR, Cond, Sym, close, eq, gt, lt
-from symx.harness import HarnessDef
+from symx.harness import HarnessDef, bare
 
 EXPLANATION = __doc__
 BOUNDS = {"fields": "2 and 3 (all permutations, all sign patterns)", "translation": "symbolic vector",
@@ -57,9 +57,9 @@ def _setup(h, nf):
     return lo, hi, L, off, t
 
 
-def h_profile(h, nf, perm, sigma):
+def h_profile(h, nf, perm, sigma, gauge=False):
     h.patch(EOMM, float=npx.symfloat, np=npx.NP())
-    eom = EOMM.EOM.__new__(EOMM.EOM)
+    eom = bare(EOMM.EOM)
     lo, hi, L, off, t = _setup(h, nf)
     z = np.array([h.real("z0", -30, 30, default=-0.7), h.real("z1", -30, 30, default=1.3)],
                  dtype=object if h.symbolic else float)
@@ -77,6 +77,23 @@ def h_profile(h, nf, perm, sigma):
                        f2[i, j], sigma[j] * f[i, perm[j]] + t[j])
             h.prove_eq(f"gradient of relabelled field {j} = sigma*old gradient (point {i})",
                        d2[i, j], sigma[j] * d[i, perm[j]])
+    if not gauge:
+        return
+    # which field carries the pinned zero offset depends on the ORDER of the fields (the solver pins
+    # the first one): two orders describe the same wall seen from origins a apart, so profile and
+    # gradient must be covariant under z -> z + a, delta_i -> delta_i + a / L_i
+    a = h.real("origin_shift", -5, 5, default=0.8)
+    za = np.array([zi + a for zi in z], dtype=z.dtype)
+    offa = np.array([off[j] + a / L[j] for j in range(nf)], dtype=off.dtype)
+    f3, d3 = eom.wallProfile(za, Fields.castFromNumpy(lo[None, :]), Fields.castFromNumpy(hi[None, :]),
+                             WallParams(widths=L, offsets=off))
+    f4, d4 = eom.wallProfile(z, Fields.castFromNumpy(lo[None, :]), Fields.castFromNumpy(hi[None, :]),
+                             WallParams(widths=L, offsets=offa))
+    f3, d3, f4, d4 = (np.asarray(x) for x in (f3, d3, f4, d4))
+    for i in range(2):
+        for j in range(nf):
+            h.prove_eq(f"profile: moving the origin = shifting every offset by a/L (field {j}, point {i})", f3[i, j], f4[i, j])
+            h.prove_eq(f"gradient: moving the origin = shifting every offset by a/L (field {j}, point {i})", d3[i, j], d4[i, j])
 
 
 def _make_eom(h, nf, M=3):
@@ -84,7 +101,7 @@ def _make_eom(h, nf, M=3):
     h.patch_numeric(PM)
     h.patch_numeric(GR)
     h.patch_numeric(G3)
-    eom = EOMM.EOM.__new__(EOMM.EOM)
+    eom = bare(EOMM.EOM)
     eom.grid = Grid3Scales(M, 3, 8.0, 8.0, 2.0, 1.0, 0.5, 0.1)
     eom.nbrFields = nf
     eom.includeOffEq = False
@@ -176,7 +193,7 @@ def h_contraction(h, nf, perm):
 def h_lhs(h, nf, perm, sigma):
     """the conservation function of the plasma profile is invariant under relabelling"""
     h.patch(EOMM, float=npx.symfloat, np=npx.NP())
-    eom = EOMM.EOM.__new__(EOMM.EOM)
+    eom = bare(EOMM.EOM)
     phi = h.reals("phi", (nf,), -10, 10)
     dphi = h.reals("dphi", (nf,), -10, 10)
     t = h.reals("shift", (nf,), -20, 20)
@@ -237,7 +254,9 @@ def _signs(nf):
 
 _PQ = [dict(nf=2, perm=p, sigma=s) for p in _perms(2) for s in _signs(2)] + \
       [dict(nf=3, perm=(2, 0, 1), sigma=(1, -1, -1)), dict(nf=3, perm=(1, 0, 2), sigma=(-1, 1, 1))]
-_PT = [dict(nf=nf, perm=p, sigma=s) for nf in (2, 3) for p in _perms(nf) for s in _signs(nf)]
+_PQ += [dict(nf=2, perm=(0, 1), sigma=(1, 1), gauge=True)]
+_PT = [dict(nf=nf, perm=p, sigma=s) for nf in (2, 3) for p in _perms(nf) for s in _signs(nf)] + \
+    [dict(nf=nf, perm=tuple(range(nf)), sigma=(1,) * nf, gauge=True) for nf in (1, 2, 3)]
 _AQ = [dict(nf=2, perm=p, sigma=s) for p in _perms(2) for s in ((1, 1), (-1, 1))] + [dict(nf=3, perm=(2, 0, 1), sigma=(1, -1, 1))]
 _AT = [dict(nf=nf, perm=p, sigma=s) for nf in (2, 3) for p in _perms(nf) for s in _signs(nf)]
 _GQ = [dict(nf=2, perm=(1, 0)), dict(nf=3, perm=(2, 0, 1))]
